@@ -222,7 +222,9 @@ package db
 
 //@ func db.parseHeader
 //@   props C15 C08 C05
-//@   pure
+//@   modifies hdr_valid alloc
+//@   ghost-exit hdr_valid = err == nil
+//@   ensures [valid] hdr_valid <==> err == nil
 //@   ensures [sound] err == nil ==> hdr_ok(mem(b), off(b), len(b))
 //@   ensures [complete] hdr_ok(mem(b), off(b), len(b)) ==> err == nil
 //@   ensures [pagesize] err == nil ==> r0.PageSize == hdr_pagesize(mem(b), off(b)) && legal_ps(r0.PageSize)
@@ -426,9 +428,10 @@ package db
 //@ macro CP(b, f, at, i) = cellptr(mem(b), off(b) + HB(f) + at, i)
 
 //@ func db.newBtree
-//@   props C01 C02 C04 C05 C14
+//@   props C01 C02 C04 C05 C08 C14
 //@   pure
 //@   uses cell_wf
+//@   trusted-ensures [token] err == nil ==> decoded_from(r0, b)
 //@   requires legal_ps(pageSize) && len(b) == pageSize
 //@   ensures [unknown-type] PTYPE(b, isFileHeader) != 13 && PTYPE(b, isFileHeader) != 5 && PTYPE(b, isFileHeader) != 10 && PTYPE(b, isFileHeader) != 2 ==> err != nil
 //@   ensures [kind] err == nil ==> r0 != nil && (PTYPE(b, isFileHeader) == 13 ==> hasType(r0, "*db.tableLeaf")) && (PTYPE(b, isFileHeader) == 5 ==> hasType(r0, "*db.tableInterior")) && (PTYPE(b, isFileHeader) == 10 ==> hasType(r0, "*db.indexLeaf")) && (PTYPE(b, isFileHeader) == 2 ==> hasType(r0, "*db.indexInterior"))
